@@ -415,8 +415,8 @@ theorem encodeDirectG_spec (R : Sched) (o : Opts) (c : Ctx) (e : Enc) (h : Hdr) 
     · simp [h4] at h2
     · simp [h4]
 
-theorem encodeEarlyG_spec (R : Sched) (o : Opts) (c : Ctx) (e : Enc) (h : Hdr) (ms : List WMsg) (hn : HdrNorm h)
-    (ho : 0 < o.lruCap) (hs : e.Safe) : ∃ r, encodeEarlyG R o c e h ms = .ret r ∧ r.1.Safe ∧
+theorem encodeEarlyG_spec (cc : CtxCfg) (R : Sched) (o : Opts) (c : Ctx) (e : Enc) (h : Hdr) (ms : List WMsg) (hn : HdrNorm h)
+    (ho : 0 < o.lruCap) (hs : e.Safe) : ∃ r, encodeEarlyG cc R o c e h ms = .ret r ∧ r.1.Safe ∧
       (c = none → r = ((encodeEarlyR R o e h ms).1, none, (if (encodeEarlyR R o e h ms).2 then .ok else .err), false)) := by
   obtain ⟨d, d1, d2⟩ := dryPassG_spec o ms c e.es e.dataSize hs.lru
   unfold encodeEarlyG encodeEarlyR
@@ -439,8 +439,8 @@ theorem encodeEarlyG_spec (R : Sched) (o : Opts) (c : Ctx) (e : Enc) (h : Hdr) (
     subst hc' hdry
     rw [r3 rfl]
 
-theorem encodeG_spec (nilw : Bool) (R : Sched) (o : Opts) (c : Ctx) (x : EncC) (f : FitIn) (hn : HdrNorm f.hdr)
-    (ho : 0 < o.lruCap) (hs : x.e.Safe) : ∃ r, encodeG nilw R o c x f = .ret r ∧ r.1.e.Safe ∧
+theorem encodeG_spec (cc : CtxCfg) (nilw : Bool) (R : Sched) (o : Opts) (c : Ctx) (x : EncC) (f : FitIn) (hn : HdrNorm f.hdr)
+    (ho : 0 < o.lruCap) (hs : x.e.Safe) : ∃ r, encodeG cc nilw R o c x f = .ret r ∧ r.1.e.Safe ∧
       (nilw = false → c = none → x.discard = false →
         r = (⟨(encodeR R o x.e f).1, false⟩, if (encodeR R o x.e f).2 then .ok else .err)) := by
   unfold encodeG
@@ -487,7 +487,7 @@ theorem encodeG_spec (nilw : Bool) (R : Sched) (o : Opts) (c : Ctx) (x : EncC) (
           · simp [h4] at h2
           · simp [hk, h4]
       · simp only [hk, Bool.false_eq_true, if_false]
-        obtain ⟨r, r1, r2, r3⟩ := encodeEarlyG_spec R o c x.e f.hdr f.msgs hn ho hs
+        obtain ⟨r, r1, r2, r3⟩ := encodeEarlyG_spec cc R o c x.e f.hdr f.msgs hn ho hs
         rw [r1]
         simp only [Run.bind]
         by_cases h2 : r.2.2.1 = .ok
@@ -515,8 +515,8 @@ theorem encodeG_spec (nilw : Bool) (R : Sched) (o : Opts) (c : Ctx) (x : EncC) (
           · simp [h4] at h2
           · simp [hk, h4]
 
-theorem encodeVG_spec {σ : Type} (V : MsgValidator σ) (nilw : Bool) (R : Sched) (o : Opts) (c : Ctx) (x : EncC) (f : FitIn)
-    (hn : HdrNorm f.hdr) (ho : 0 < o.lruCap) (hs : x.e.Safe) : ∃ r, encodeVG V nilw R o c x f = .ret r ∧ r.1.e.Safe ∧
+theorem encodeVG_spec {σ : Type} (V : MsgValidator σ) (cc : CtxCfg) (nilw : Bool) (R : Sched) (o : Opts) (c : Ctx) (x : EncC) (f : FitIn)
+    (hn : HdrNorm f.hdr) (ho : 0 < o.lruCap) (hs : x.e.Safe) : ∃ r, encodeVG V cc nilw R o c x f = .ret r ∧ r.1.e.Safe ∧
       (nilw = false → c = none → x.discard = false → r = (⟨(encodeVR V R o x.e f).1, false⟩, (encodeVR V R o x.e f).2)) := by
   unfold encodeVG encodeVR
   split
@@ -527,7 +527,7 @@ theorem encodeVG_spec {σ : Type} (V : MsgValidator σ) (nilw : Bool) (R : Sched
       | none => exact ⟨_, rfl, hs, fun _ _ hd => by cases x; simp_all⟩
       | some ms' =>
         simp only
-        obtain ⟨r, r1, r2, r3⟩ := encodeG_spec nilw R o c x { f with msgs := ms' } hn ho hs
+        obtain ⟨r, r1, r2, r3⟩ := encodeG_spec cc nilw R o c x { f with msgs := ms' } hn ho hs
         exact ⟨r, r1, r2, r3⟩
 
 /-! ### stream encoder -/
@@ -588,13 +588,13 @@ theorem sequenceCompletedVG_spec {σ : Type} (V : MsgValidator σ) (R : Sched) (
 
 /-! ### runs -/
 
-theorem runEncCalls_spec {σ : Type} (V : MsgValidator σ) (nilw : Bool) (R : Sched) (o : Opts) (ho : 0 < o.lruCap) :
+theorem runEncCalls_spec {σ : Type} (V : MsgValidator σ) (cc : CtxCfg) (nilw : Bool) (R : Sched) (o : Opts) (ho : 0 < o.lruCap) :
     ∀ (cs : List EncCall) (x : EncC), (∀ c ∈ cs, HdrNorm c.fit.hdr) → x.e.Safe →
-      ∃ r, runEncCalls V nilw R o x cs = .ret r ∧ r.1.e.Safe ∧ r.2.length = cs.length
+      ∃ r, runEncCalls V cc nilw R o x cs = .ret r ∧ r.1.e.Safe ∧ r.2.length = cs.length
   | [], x, _, hs => ⟨_, rfl, hs, rfl⟩
   | c :: cs, x, hn, hs => by
-    obtain ⟨r, r1, r2, _⟩ := encodeVG_spec V nilw R o c.ctx x c.fit (hn c (by simp)) ho hs
-    obtain ⟨t, t1, t2, t3⟩ := runEncCalls_spec V nilw R o ho cs r.1 (fun c' hc' => hn c' (by simp [hc'])) r2
+    obtain ⟨r, r1, r2, _⟩ := encodeVG_spec V cc nilw R o c.ctx x c.fit (hn c (by simp)) ho hs
+    obtain ⟨t, t1, t2, t3⟩ := runEncCalls_spec V cc nilw R o ho cs r.1 (fun c' hc' => hn c' (by simp [hc'])) r2
     unfold runEncCalls
     rw [r1]
     simp only [Run.bind]
